@@ -517,7 +517,13 @@ def w_geometry(ctx, rng, i):
         rigid = Homogeneous(np.asarray(rigid.h_matrix, dtype=float) * [2.0, -1.0, 0.25, 5.0][rng.integers(0, 4)])
     bkw = {"batch_size": int(rng.integers(1, m.n_points + 3))} if rng.random() < 0.25 else {}      # the documented optional batching
     mr = rigid.apply(m, **bkw)
-    msc = UniformScale(s, d).apply(m, **bkw)
+    sc_t = UniformScale(s, d)
+    if rng.random() < 0.3:
+        # the scale transform made from a template (the identity, a whole-number scale) and given the real factor afterwards
+        tpl_ = [UniformScale.init_identity(d), UniformScale(2, d), UniformScale(1, d)][rng.integers(0, 3)]
+        sc_t = tpl_.from_vector(np.array([s]))
+        ctx.bump("scales_built_from_a_whole_number_template")
+    msc = sc_t.apply(m, **bkw)
     a0, a1, a2 = m.tri_areas(), mr.tri_areas(), msc.tri_areas()
     l0, l1, l2 = m.edge_lengths(), mr.edge_lengths(), msc.edge_lengths()
     # the moved mesh rebuilt from its coordinate vector on the original mesh (same triangles, attributes): the same mesh as the
